@@ -49,27 +49,43 @@ def addsFor (orig : List Nat) : List (List Nat) :=
   else if orig == getProp then [95 :: orig, alloc]
   else [95 :: orig]
 
+def allocName : List Nat := [95, 115, 104, 111, 112, 105, 102, 121, 95, 102, 117, 110, 99, 116, 105, 111, 110, 95, 97, 108, 108, 111, 99]
+
+/-- provider imports added for `k` occurrences of the string-carrying import `orig`: the
+    per-occurrence ones `k` times, the allocator import (memoised in a `OnceCell`) once -/
+def addsForOcc (orig : List Nat) (k : Nat) : List (List Nat) :=
+  (List.replicate k ((addsFor orig).filter (· != allocName))).flatten ++
+    (if (addsFor orig).contains allocName then [allocName] else [])
+
+/-- is `i` a provider import named `n`? -/
+def Imp.isApi (n : List Nat) (i : Imp) : Bool := i.module == provider && i.name == n
+
+/-- one entry `(orig, new)` of the IMPORTS table; every occurrence of the import is handled
+    (a module may import the same function more than once — F11 repair) -/
+def stepOne (orig new : List Nat) (imps added : List Imp) (needMem : Bool) : Except Nat (List Imp × List Imp × Bool) :=
+  match expectedSig? orig with
+  | some (ps, rs) =>
+    -- a string-carrying import: every function import of that name is checked and replaced by
+    -- glue; an import of that name that is not a function is left alone
+    let occ := imps.filter (fun i => i.isApi orig && i.kind == 0)
+    if occ.any (fun i => i.params ≠ ps ∨ i.results ≠ rs) then .error 3
+    else if occ.isEmpty then .ok (imps, added, needMem)
+    else
+      .ok (imps.filter (fun i => !(i.isApi orig && i.kind == 0)),
+           added ++ (addsForOcc orig occ.length).map (fun a => { module := provider, name := a, kind := 0 }),
+           true)
+  | none =>
+    -- renamed in place, provided every import of that name is a function
+    if imps.any (fun i => i.isApi orig && i.kind != 0) then .error 4
+    else .ok (imps.map (fun j => if j.isApi orig then { j with name := new } else j), added, needMem)
+
 /-- step through the IMPORTS table in source order -/
 def applyPairs : List (List Nat × List Nat) → List Imp → List Imp → Bool → Except Nat (List Imp × List Imp × Bool)
   | [], imps, added, needMem => .ok (imps, added, needMem)
   | (orig, new) :: rest, imps, added, needMem =>
-    match expectedSig? orig with
-    | some (ps, rs) =>
-      -- a string-carrying import: replaced by glue when present as a function import
-      (match imps.find? (fun i => i.module == provider && i.name == orig && i.kind == 0) with
-       | none => applyPairs rest imps added needMem
-       | some i =>
-         if i.params ≠ ps ∨ i.results ≠ rs then .error 3
-         else
-           let imps' := imps.filter (fun j => !(j.module == provider && j.name == orig && j.kind == 0 && j == i))
-           applyPairs rest imps' (added ++ (addsFor orig).map (fun a => { module := provider, name := a, kind := 0 })) true)
-    | none =>
-      (match imps.find? (fun i => i.module == provider && i.name == orig) with
-       | none => applyPairs rest imps added needMem
-       | some i =>
-         if i.kind ≠ 0 then .error 4
-         else
-           applyPairs rest (imps.map (fun j => if j == i then { j with name := new } else j)) added needMem)
+    match stepOne orig new imps added needMem with
+    | .error c => .error c
+    | .ok (imps', added', needMem') => applyPairs rest imps' added' needMem'
 
 /-- `TrampolineCodegen::new(module)?.apply()` -/
 def apply (m : Summary) : Decision :=
